@@ -1,21 +1,205 @@
-"""C15 — terminal emulator: grid-shape invariant contracts on the cursor arithmetic of urwid/vterm.py.
-(The grid itself — a list of rows of cells — and the byte parser are decided by the bounded check.)"""
+"""C15 — terminal emulator: the grid operations of urwid/vterm.py:TermCanvas under the class invariant GI
+(DESIGN §6 C15) and, per operation, the content postcondition a VT100 has for it.
+
+Grid model: `term` is a list of rows, a row a list of cells, a cell an opaque triple (attribute, charset name,
+character bytes).  Rows are held BY VALUE (pyvc/seqs.py: fresh_seq / RowRef): the model has no aliasing between
+rows, which is how the real code treats them (every row is built fresh by empty_line() / a slice / a concatenation
+and *moved* between `term` and the scroll-back, never shared); a use the model cannot follow is `Unsupported`.
+The scroll-back `collections.deque(maxlen=10000)` is the ADT model SDeque below (assumed; cross-checked against the
+real deque on every run by a static check).  The byte parser is decided by the bounded check."""
+import collections
+
+import z3
+
+from pyvc import seqs as Q
 from pyvc.api import *
+from pyvc.api import PROTOCOLS
+from pyvc.engine import PyRaise, SExc
+from pyvc.protocol import PMethod, Protocol
+from pyvc.seqs import ModelObj
 from pyvc.values import cur
 from urwid import vterm as _vt
 
 VT = "urwid/vterm.py:"
 MODES = Obj(_vt.TermModes, dict(constrain_scrolling=Bool, visible_cursor=Bool, autowrap=Bool, insert=Bool, lfnl=Bool))
+CHARSET = Obj(_vt.TermCharset, dict(current=Opaque("CsName")))
+CELL = Tup(Opaque("Attr"), Opaque("CsName"), Opaque("Bytes", lit=(bytes,)))
+ROW = ListOf(CELL)
+GRID = ListOf(ROW)
+SCROLLBACK_MAX = 10000
+
+
+# ---- collections.deque(maxlen=N) holding rows: dual-use transition functions + the symbolic ADT
+
+def dq_append(content, maxlen, v):
+    """deque.append with maxlen: when full the leftmost element is discarded."""
+    n = Q.seq_len(content)
+    return Q.seq_concat(Q.seq_slice1(content, ite(n >= maxlen, 1, 0), n), (v,))
+
+
+def dq_pop(content):
+    """deque.pop() on a non-empty deque: (rightmost element, the rest)."""
+    n = Q.seq_len(content)
+    return Q.seq_get(content, n - 1), Q.seq_slice1(content, 0, n - 1)
+
+
+class SDeque(ModelObj):
+    """`collections.deque(maxlen=maxlen)` of rows (rows by value, as in the grid)."""
+
+    def __init__(self, st, hint, maxlen=SCROLLBACK_MAX):
+        self.maxlen = maxlen
+        self.seq = ListOf(ROW, max_len=maxlen).fresh_seq(st, hint)
+
+    def py_truth(self, st):
+        return Q.seq_len(self.seq) > 0
+
+    def py_len(self, st):
+        return Q.seq_len(self.seq)
+
+    def py_call(self, ip, st, name, args, kwargs):
+        if name == "append" and len(args) == 1:
+            self.seq = dq_append(self.seq, self.maxlen, Q.row_value(args[0]))
+            return None
+        if name == "pop" and not args:
+            n = Q.seq_len(self.seq)
+            if st.branch(n == 0):
+                raise PyRaise(SExc(IndexError, ("pop from an empty deque",), site="builtin"))
+            v, self.seq = dq_pop(self.seq)
+            return Q.LRef(v)  # a detached list: rows are never shared
+        raise Unsupported(f"deque.{name}")
+
+
+def _xcheck_deque():
+    """The transition functions above against the real collections.deque, exhaustively over a small scope."""
+    import itertools
+
+    n = 0
+    for maxlen in (1, 2, 3):
+        for ops in itertools.product(("a", "p"), repeat=5):
+            real, model, k = collections.deque(maxlen=maxlen), (), 0
+            for op in ops:
+                if op == "a":
+                    k += 1
+                    real.append(k)
+                    model = tuple(dq_append(model, maxlen, k))
+                elif real:
+                    v, model = dq_pop(model)
+                    model = tuple(model)
+                    if v != real.pop():
+                        return "deque-model-vs-cpython", False, f"pop differs after {ops}"
+                if tuple(real) != model:
+                    return "deque-model-vs-cpython", False, f"content differs after {ops} maxlen={maxlen}: {tuple(real)} vs {model}"
+                n += 1
+    return "deque-model-vs-cpython", True, f"{n} steps compared"
+
+
+class TermWidgetProtocol(Protocol):
+    """The Terminal widget as seen from its canvas: `respond(string)` queues a reply for the hosted program
+    (logged in the ghost trace; it has no effect on the canvas)."""
+
+    kind = "TermWidget"
+    methods = {"respond": PMethod(None, params=["string"])}
+
+    def call(self, ip, st, recv, name, args, kwargs):
+        if name != "respond" or len(args) != 1 or kwargs:
+            raise Unsupported(f"Terminal.{name}")
+        st.event("call", recv, name, {"string": args[0]}, None)
+        return None
+
+
+PROTOCOLS["TermWidget"] = TermWidgetProtocol()
+
 TERM = Obj(_vt.TermCanvas, dict(
     width=Int, height=Int, scrollregion_start=Int, scrollregion_end=Int, term_cursor=Tup(Int, Int), modes=MODES,
-    is_rotten_cursor=Bool, has_focus=Bool, scrolling_up=Int, cursor=Opt(Tup(Int, Int))))
+    is_rotten_cursor=Bool, has_focus=Bool, scrolling_up=Int, cursor=Opt(Tup(Int, Int)),
+    term=GRID, scrollback_buffer=Custom(lambda st, hint: SDeque(st, hint), "deque(maxlen=10000) of rows"),
+    attrspec=Opaque("Attr"), charset=CHARSET, saved_cursor=Opt(Tup(Int, Int)), tabstops=ListOf(Int(0, 255)),
+    widget=Opaque("TermWidget")))
+FIELDS = tuple(TERM.fields)
+HELPERS = ("TermCanvas.empty_char", "TermCanvas.empty_line")  # 1-line constructors of a blank cell / a fresh blank row
+
+
+# ---- spec vocabulary (contract side; dual use where it matters)
+
+def rows_of(t):
+    return t.seq if isinstance(t, Q.LRef) else t
+
+
+def cell(t, r, x):
+    """Cell x of row r of a grid value."""
+    return Q.seq_get(Q.seq_get(rows_of(t), r), x)
+
+
+def cell_eq(a, b):
+    return both(eq(a[0], b[0]), eq(a[1], b[1]), eq(a[2], b[2]))
+
+
+def blank(s, ch=b" "):
+    """The cell the terminal writes when it erases: current attribute and charset, a space."""
+    return (s.attrspec, s.charset.current, ch)
+
+
+def row_len(t, r):
+    return Q.seq_len(Q.seq_get(rows_of(t), r))
+
+
+def same_row(t1, r1, t2, r2, w):
+    """Row r1 of t1 has the cells of row r2 of t2 (both of width w)."""
+    return forall(0, w, lambda x: cell_eq(cell(t1, r1, x), cell(t2, r2, x)))
+
+
+def row_eq_seq(row, t2, r2):
+    """A row value equals row r2 of grid t2 (length and cells)."""
+    other = Q.seq_get(rows_of(t2), r2)
+    n = Q.seq_len(row)
+    return both(n == Q.seq_len(other), forall(0, n, lambda x: cell_eq(Q.seq_get(row, x), Q.seq_get(other, x))))
+
+
+def blank_row(t, r, s, w, ch=b" "):
+    return forall(0, w, lambda x: cell_eq(cell(t, r, x), blank(s, ch)))
+
+
+def rows_same(old, s, lo, hi, shift=0):
+    """Rows lo..hi-1 of the new grid are rows lo+shift.. of the old one."""
+    return forall(lo, hi, lambda r: same_row(s.term, r, old.term, r + shift, old.width))
+
+
+def grid_shape(s):
+    return both(Q.seq_len(rows_of(s.term)) == s.height, forall(0, s.height, lambda r: row_len(s.term, r) == s.width))
 
 
 def GI(s):
-    """Grid invariant (cursor part): positive size, scrolling region and cursor inside the grid."""
+    """Grid invariant: positive size; `term` is height rows of width cells; scrolling region and cursor inside
+    the grid; the view offset inside the scroll-back; a tab-stop byte for every column."""
     x, y = s.term_cursor
     return both(s.width >= 1, s.height >= 1, 0 <= s.scrollregion_start, s.scrollregion_start <= s.scrollregion_end,
-                s.scrollregion_end <= s.height - 1, 0 <= x, x < s.width, 0 <= y, y < s.height, s.scrolling_up >= 0)
+                s.scrollregion_end <= s.height - 1, 0 <= x, x < s.width, 0 <= y, y < s.height, s.scrolling_up >= 0,
+                s.scrolling_up <= Q.seq_len(s.scrollback_buffer.seq), Q.seq_len(rows_of(s.tabstops)) * 8 >= s.width,
+                grid_shape(s))
+
+
+def same_value(a, b, w=None):
+    """Equality of two field values (scalars, tuples, optionals; lists and the deque by content identity)."""
+    if isinstance(a, Q.LRef):
+        if a.seq is b.seq:
+            return True
+        if Q.is_nested(a.seq) or Q.is_nested(b.seq):
+            n = Q.seq_len(a.seq)
+            return both(n == Q.seq_len(b.seq), forall(0, n, lambda r: both(row_len(a, r) == row_len(b, r), forall(0, row_len(a, r), lambda x: cell_eq(cell(a, r, x), cell(b, r, x))))))
+        n = Q.seq_len(a.seq)
+        return both(n == Q.seq_len(b.seq), forall(0, n, lambda k: eq(Q.seq_get(a, k), Q.seq_get(b, k))))
+    if isinstance(a, SDeque):
+        return a.seq is b.seq or same_value(Q.LRef(a.seq), Q.LRef(b.seq))
+    if isinstance(a, Q.SObj):
+        return both(*[same_value(a.fields[k], b.fields[k]) for k in a.fields])
+    if isinstance(a, tuple):
+        return both(*[same_value(x, y) for x, y in zip(a, b)])
+    return opt_eq(a, b)
+
+
+def frame(old, s, *modified):
+    """Every modelled field of the canvas outside `modified` is as it was."""
+    return both(*[same_value(s.fields[k], old.fields[k]) for k in FIELDS if k not in modified])
 
 
 @contract(VT + "TermCanvas.constrain_coords", property="C15")
@@ -90,3 +274,54 @@ class get_utf8_len:
         yield "at-most-seven-terminates", both(0 <= result, result <= 7)
         yield "lead-byte-lengths", both(implies(both(0xC0 <= b, b <= 0xDF), result == 1), implies(both(0xE0 <= b, b <= 0xEF), result == 2), implies(both(0xF0 <= b, b <= 0xF7), result == 3))
         yield "not-a-lead-byte", implies(b < 0x40, result == 0)
+
+
+# =================================================================================================
+# grid operations
+
+
+@contract(VT + "TermCanvas.blank_line", property="C15")
+class blank_line:
+    self_shape = TERM
+    params = dict(row=Int)
+    modifies = ("term",)
+    invariant = staticmethod(GI)
+    inline = HELPERS
+    replayable = False
+    independent_posts = True
+
+    def requires(s, a):
+        return both(0 <= a.row, a.row < s.height)
+
+    def ensures(old, s, a, result):
+        yield "that-row-is-blank", blank_row(s.term, a.row, old, old.width)
+        yield "other-rows-unchanged", both(rows_same(old, s, 0, a.row), rows_same(old, s, a.row + 1, old.height))
+        yield "frame", frame(old, s, "term")
+
+
+@contract(VT + "TermCanvas.scroll", property="C15")
+class scroll:
+    self_shape = TERM
+    params = dict(reverse=Bool)
+    modifies = ("term", "scrollback_buffer")
+    invariant = staticmethod(GI)
+    inline = HELPERS
+    replayable = False
+    independent_posts = True
+
+    def ensures(old, s, a, result):
+        top, bot, w = old.scrollregion_start, old.scrollregion_end, old.width
+        yield "outside-the-region-unchanged", both(rows_same(old, s, 0, top), rows_same(old, s, bot + 1, old.height))
+        if a.reverse:
+            yield "region-moves-down-one", rows_same(old, s, top + 1, bot + 1, shift=-1)
+            yield "top-of-region-blank", blank_row(s.term, top, old, w)
+            yield "scrollback-untouched", same_value(s.scrollback_buffer, old.scrollback_buffer)
+        else:
+            yield "region-moves-up-one", rows_same(old, s, top, bot, shift=1)
+            yield "bottom-of-region-blank", blank_row(s.term, bot, old, w)
+            nb, na = Q.seq_len(old.scrollback_buffer.seq), Q.seq_len(s.scrollback_buffer.seq)
+            yield "line-scrolled-off-is-kept-last-in-scrollback", both(
+                na == imin(nb + 1, SCROLLBACK_MAX), row_eq_seq(Q.seq_get(s.scrollback_buffer.seq, na - 1), old.term, top))
+            drop = na - 1 - nb  # 0, or -1 when the full scroll-back dropped its oldest line
+            yield "earlier-scrollback-kept-in-order", forall(0, na - 1, lambda k: row_eq_seq(Q.seq_get(s.scrollback_buffer.seq, k), Q.LRef(old.scrollback_buffer.seq), k - drop))
+        yield "frame", frame(old, s, "term", "scrollback_buffer")
